@@ -21,6 +21,27 @@ import (
 	"time"
 )
 
+// Scratch returns a per-run scratch directory (tmpfs when the check script provides one).
+func Scratch() string {
+	if d := os.Getenv("VERIF_SCRATCH"); d != "" {
+		_ = os.MkdirAll(d, 0o755)
+		return d
+	}
+	d, err := os.MkdirTemp("", "verif-scratch-")
+	if err != nil {
+		panic(err)
+	}
+	return d
+}
+
+// Plugbin is the path of the scripted plugin executable built by the check script.
+func Plugbin() string {
+	if p := os.Getenv("VERIF_PLUGBIN"); p != "" {
+		return p
+	}
+	return filepath.Join(VerifDir(), "build", "bin", "plugbin")
+}
+
 // VerifDir is the root of the verification tree.
 func VerifDir() string {
 	if d := os.Getenv("VERIF_DIR"); d != "" {
@@ -112,6 +133,10 @@ func New(id string) *Run {
 		r.Tier = "quick"
 	}
 	r.loadFindings()
+	// the harnesses allocate heavily (certificate parsing); memory is plentiful, GC time is not
+	if os.Getenv("GOGC") == "" {
+		debug.SetGCPercent(800)
+	}
 	return r
 }
 
